@@ -83,11 +83,13 @@ export const STRING_FORMATS = {
   f1: (s) => s.startsWith("a"),
   f2: (s) => s.length >= 2,
   f3: (s) => s.endsWith("z"),
+  id: (s) => s.length > 0,
 };
 export const NUMBER_FORMATS = {
   n1: (x) => Number.isFinite(x),
   n2: (x) => x >= 0,
   n3: (x) => x <= 1,
+  id: (x) => x > 0,
 };
 
 export function assembleCjs(wasmCode, stringFormats, numberFormats) {
